@@ -44,6 +44,7 @@ I, S, B, R = z3.IntSort(), z3.StringSort(), z3.BoolSort(), z3.RealSort()
 DICT_ORDER_INVARIANT = True  # representation invariant of insertion-ordered dict VARIABLES at loop heads (engine.assume_dict_wf)
 NESTED_DICT_ORDER = True    # dicts stored as values of a dict keep their insertion-ordered key list (values.fresh)
 PRUNE_BRANCHES = False
+PACK_KEYS = True            # composite dict / set keys are packed into one array index (values.PACK: same meaning, smaller terms)
 INLINE = ["AtomType.matches", "classify_clash"]
 
 CLASSES = {
@@ -187,6 +188,20 @@ def ext_read_3d_structure(e, args, kw, node, st):
     return s3
 
 
+def _recorded(e, node, cmd, what):
+    """the call is a statement of its own and a ghost command anchored AFTER that statement hands the value to the ghost list:
+    a print / writerow that the contract does not record is refused, so 'nothing else is printed' cannot be missed"""
+    import ast
+    # the statement whose expression is this very call (searched in the function under verification: cur_stmt may still point
+    # into an inlined helper evaluated for an argument)
+    stmt = next((n_ for n_ in ast.walk(e.funcs[str(e.cur_name).split("@")[0]]) if isinstance(n_, ast.Expr) and n_.value is node), None)
+    if not (isinstance(stmt, ast.Expr) and isinstance(stmt.value, ast.Call) and (stmt.value is node or ast.unparse(stmt.value) == ast.unparse(node))):
+        raise Unsupported(f"{what}(...) that is not a statement of its own: {type(stmt).__name__} {ast.unparse(stmt)[:40] if stmt is not None else None!r} / {ast.unparse(node)[:40]!r}")
+    text = ast.unparse(stmt)
+    if not any(g["when"] == "after" and text.startswith(g["at"]) and cmd in [c.strip() for c in g["do"]] for g in e.cur_ghost):
+        raise Unsupported(f"{what} statement without a ghost command recording it ({cmd!r}): {text[:50]}")
+
+
 def ext_print(e, args, kw, node, st):
     """print(s) for one string: writes the line s to stdout.  The line is recorded as the ghost value last_printed; the ghost
     command anchored at the print statement appends it to the ghost list OUT (so OUT is loop-modified ghost state that the
@@ -196,6 +211,7 @@ def ext_print(e, args, kw, node, st):
     s_ = args[0]
     if not (isinstance(s_, str) or (z3.is_expr(s_) and s_.sort() == S)):
         raise Unsupported("print of a non-string")
+    _recorded(e, node, "let OUT = push(OUT, last_printed)", "print")
     st.ghost["last_printed"] = to_z3(s_)
     return None
 
@@ -240,7 +256,8 @@ def ext_sorted(e, args, kw, node, st):
     q = z3.Int(uid("q"))
     st.assume(z3.And(to_z3(out.length) == n, n >= 0))
     eqs = [a == b for a, b in zip(key_terms(sel(out.elems, q)), key_terms(sel(v.order.elems, perm[q])))]
-    st.assume(z3.ForAll([q], z3.Implies(z3.And(q >= 0, q < n), z3.And(perm[q] >= 0, perm[q] < n, inv[perm[q]] == q, *eqs)), patterns=[perm[q]]))
+    st.assume(z3.ForAll([q], z3.Implies(z3.And(q >= 0, q < n), z3.And(perm[q] >= 0, perm[q] < n, inv[perm[q]] == q, *eqs)),
+                        patterns=[perm[q], key_terms(sel(out.elems, q))[0]]))
     st.assume(z3.ForAll([q], z3.Implies(z3.And(q >= 0, q < n), z3.And(inv[q] >= 0, inv[q] < n, perm[inv[q]] == q)), patterns=[inv[q]]))
     st.ghost["SPERM"], st.ghost["SINV"] = VList(n, perm, ("int",)), VList(n, inv, ("int",))
     return out
@@ -304,6 +321,7 @@ def ext_writerow(e, args, kw, node, st):
     command anchored at the statement appends it to the ghost list ROWS.  Changes nothing else."""
     w, row = args
     if isinstance(row, VHList):
+        _recorded(e, node, "let ROWS = push(ROWS, last_row)", "writerow")
         st.ghost["last_row"] = VTuple(list(row.items))
     elif isinstance(row, VList) and isinstance(row.length, int):
         st.ghost["last_header"] = row
@@ -580,6 +598,10 @@ class main:
                 "assert keys_by_identity(clashes)"]},
         {"when": "before", "at": "if chain_key not in clashing_chains", "label": "chain-witness",
          "do": ["let WC = ite(chain_key in clashing_chains, WC, put(WC, chain_key, n))"]},
+        {"when": "after", "at": "if chain_key not in clashing_chains", "label": "new-chain-pair-has-no-entries",
+         "do": ["assert atom_sets_witnessed(clashes, n, clashing_chains, WA)"]},
+        {"when": "after", "at": "if residue_key not in clashing_chains[chain_key]", "label": "new-residue-pair-has-no-entries",
+         "do": ["assert atom_sets_witnessed(clashes, n, clashing_chains, WA)"]},
         {"when": "before", "at": "clashing_chains[chain_key][residue_key] = set()", "label": "residue-witness",
          "do": ["let WP = put(WP, (chain_key[0], chain_key[1], len(clashing_chains[chain_key])), n)"]},
         {"when": "before", "at": "clashing_chains[chain_key][residue_key].add(", "label": "atom-witness",
@@ -588,18 +610,34 @@ class main:
          "do": ["let MR = ite((ri, rj) not in max_occupancy_residues or occupancy > max_occupancy_residues[ri, rj], put(MR, (ri, rj), n), MR)"]},
         {"when": "before", "at": "max_occupancy_chains[ri.chain, rj.chain] =", "label": "chain-argmax",
          "do": ["let MC = ite((ri.chain, rj.chain) not in max_occupancy_chains or occupancy > max_occupancy_chains[ri.chain, rj.chain], put(MC, (ri.chain, rj.chain), n), MC)"]},
+        {"when": "before", "at": "if ci == cj", "label": "chain-pair-of-the-line",
+         "do": ["let kc = WC[ci, cj]",
+                "assert (ci, cj) in clashing_chains",
+                "assert 0 <= kc and kc < len(clashes) and ck0(clashes, kc) == ci and ck1(clashes, kc) == cj",
+                "assert (ck0(clashes, kc), ck1(clashes, kc)) in max_occupancy_chains",
+                "assert (ci, cj) in max_occupancy_chains",
+                "assert max_occupancy_chains[ci, cj] == clashes[MC[ci, cj]][2]"]},
+        {"when": "before", "at": "if ri == rj", "label": "residue-pair-of-the-line",
+         "do": ["let kr = WP[ci, cj, r]",
+                "assert 0 <= kr and kr < len(clashes) and clashes[kr][0][0] is ri and clashes[kr][1][0] is rj",
+                "assert (clashes[kr][0][0], clashes[kr][1][0]) in max_occupancy_residues",
+                "assert (ri, rj) in max_occupancy_residues",
+                "assert max_occupancy_residues[ri, rj] == clashes[MR[ri, rj]][2]"]},
+        {"when": "before", "at": "print(f'        Clashes found between atoms", "label": "clash-of-the-line",
+         "do": ["let ka = WA[ri, rj, ai, aj, occupancy]",
+                "assert 0 <= ka and ka < len(clashes) and clashes[ka][0][1] is ai and clashes[ka][1][1] is aj and clashes[ka][2] == occupancy"]},
         {"when": "after", "at": "print(f'Clashes found in chain", "label": "chain-line",
-         "do": [PUSH_LINE, "let LK = push(LK, 0)", "let LC = push(LC, WC[ci, cj])"]},
+         "do": ["assert line_ok(clashes, MR, MC, last_printed, 0, kc)", PUSH_LINE, "let LK = push(LK, 0)", "let LC = push(LC, kc)"]},
         {"when": "after", "at": "print(f'Clashes found between chains", "label": "chain-line",
-         "do": [PUSH_LINE, "let LK = push(LK, 0)", "let LC = push(LC, WC[ci, cj])"]},
+         "do": ["assert line_ok(clashes, MR, MC, last_printed, 0, kc)", PUSH_LINE, "let LK = push(LK, 0)", "let LC = push(LC, kc)"]},
         {"when": "after", "at": "print(f'    Clashes found in residue", "label": "residue-line",
-         "do": [PUSH_LINE, "let LK = push(LK, 1)", "let LC = push(LC, WP[ci, cj, r])"]},
+         "do": ["assert line_ok(clashes, MR, MC, last_printed, 1, kr)", PUSH_LINE, "let LK = push(LK, 1)", "let LC = push(LC, kr)"]},
         {"when": "after", "at": "print(f'    Clashes found between residues", "label": "residue-line",
-         "do": [PUSH_LINE, "let LK = push(LK, 1)", "let LC = push(LC, WP[ci, cj, r])"]},
+         "do": ["assert line_ok(clashes, MR, MC, last_printed, 1, kr)", PUSH_LINE, "let LK = push(LK, 1)", "let LC = push(LC, kr)"]},
         {"when": "after", "at": "print(f'        Clashes found between atoms", "label": "atom-line",
-         "do": [PUSH_LINE, "let LK = push(LK, 2)", "let LC = push(LC, WA[ri, rj, ai, aj, occupancy])"]},
+         "do": ["assert line_ok(clashes, MR, MC, last_printed, 2, ka)", PUSH_LINE, "let LK = push(LK, 2)", "let LC = push(LC, ka)"]},
         {"when": "after", "at": "writer.writerow([f'{os.path", "label": "csv-row",
-         "do": ["let ROWS = push(ROWS, last_row)", "let RC = push(RC, WA[ri, rj, ai, aj, occupancy])"]},
+         "do": ["assert row_ok(clashes, last_row, WA[ri, rj, ai, aj, occupancy])", "let ROWS = push(ROWS, last_row)", "let RC = push(RC, WA[ri, rj, ai, aj, occupancy])"]},
     ]
 
 
